@@ -106,13 +106,13 @@ pub fn run(args: &Args) -> i32 {
     let rep = Arc::new(Reporter::new(
         args,
         "exploration",
-        "every log record (Trace and above) emitted by the library while the C01, C10, C18 and C08 scenario sets and a dedicated error-path sweep \
+        "every log record (Trace and above) emitted by the library while the C01, C10, C18, C08 and C05-L2 (real TLS front end) scenario sets and a dedicated error-path sweep \
          run, with Authorization/Cookie canaries added to every request and every Proxy-Authorization value registered as planted; a record is a \
          leak if it contains a planted value, its marker, or the decoded user/password halves. evaluations = records scanned; \
          distinct_nontrivial = distinct normalised record templates seen.",
     ));
-    rep.assume("records whose target is the client-side TLS/HTTP stack of the harness itself are excluded");
-    rep.assume("scenarios are those of C01/C10/C18/C08 plus the error-path sweep; TLS-level SNI credential labels are scanned by the C05 L2 scenarios when present");
+    rep.assume("records whose target is the client-side TLS/HTTP stack of the harness itself are excluded; a record counts as emitted iff the endpoint's own logger (trusttunnel::log_utils::StdoutLogger::enabled at max level Trace) accepts it");
+    rep.assume("scenarios are those of C01/C10/C18/C08, the C05 L2 scenarios (real TLS front end with an SNI credentials label) and the error-path sweep");
     logcap::install(true);
     secrets::set_extra_headers(vec![
         ("authorization".into(), secrets::AUTHZ.as_bytes().to_vec()),
@@ -120,6 +120,8 @@ pub fn run(args: &Args) -> i32 {
     ]);
     secrets::plant_str("tokA-CANARYSNI");
     secrets::plant_str("tokBad-CANARYSNI");
+    secrets::plant_str("tok-CANARYSNI");
+    secrets::plant_str("tok-canarysni");
     // the scenario sets judge their own properties into a scratch reporter that is discarded
     let scratch_args = Args { id: "C20-scratch".into(), replay: Some("/dev/null".into()), ..args.clone() };
     let scratch = Arc::new(Reporter::new(&scratch_args, "exploration", "scratch"));
@@ -130,6 +132,9 @@ pub fn run(args: &Args) -> i32 {
     crate::props::c10::scenarios(&scratch, &quick_args);
     scenarios += 1;
     crate::props::c18::run_all(&scratch, &quick_args);
+    scenarios += 1;
+    // real TLS front end (Core::listen): SNI-borne credentials label, every host class, refused handshakes
+    crate::props::c05_l2::run_l2(&scratch, &quick_args);
     scenarios += 1;
     let swept = error_path_sweep(&rep, args);
     rep.tally("scenario sets driven", scenarios);
@@ -159,6 +164,11 @@ pub fn run(args: &Args) -> i32 {
     let mut by_level: BTreeMap<String, u64> = BTreeMap::new();
     for r in &records {
         if r.target.starts_with("rustls::client") || r.target.starts_with("tt_verif") || r.target.starts_with("h2::client") {
+            continue;
+        }
+        if !r.emitted {
+            // the endpoint's own logger (the real trusttunnel::log_utils logger at max level Trace) refuses this record
+            rep.tally(&format!("records the endpoint's logger does not write: target {}", r.target.split("::").next().unwrap_or("")), 1);
             continue;
         }
         rep.evals(1);
